@@ -653,6 +653,9 @@ pub fn bool_vector_rand(push_state: &mut PushState, _instruction_cache: &Instruc
 pub fn bool_vector_rotate(push_state: &mut PushState, _instruction_cache: &InstructionCache) {
     if let Some(b) = push_state.bool_stack.pop() {
         if let Some(bv) = push_state.bool_vector_stack.get_mut(0) {
+            if bv.values.is_empty() {
+                return;
+            }
             bv.values.rotate_left(1);
             let n = bv.values.len();
             bv.values[n - 1] = b;
@@ -1055,6 +1058,9 @@ pub fn int_vector_remove(push_state: &mut PushState, _instruction_cache: &Instru
 pub fn int_vector_rotate(push_state: &mut PushState, _instruction_cache: &InstructionCache) {
     if let Some(i) = push_state.int_stack.pop() {
         if let Some(iv) = push_state.int_vector_stack.get_mut(0) {
+            if iv.values.is_empty() {
+                return;
+            }
             iv.values.rotate_left(1);
             let n = iv.values.len();
             iv.values[n - 1] = i;
@@ -1412,6 +1418,9 @@ pub fn float_vector_rand(push_state: &mut PushState, _instruction_cache: &Instru
 pub fn float_vector_rotate(push_state: &mut PushState, _instruction_cache: &InstructionCache) {
     if let Some(f) = push_state.float_stack.pop() {
         if let Some(fv) = push_state.float_vector_stack.get_mut(0) {
+            if fv.values.is_empty() {
+                return;
+            }
             fv.values.rotate_left(1);
             let n = fv.values.len();
             fv.values[n - 1] = f;
